@@ -17,6 +17,10 @@ class Outer:
 class Vec:
   v: [ Bits4, Bits4, Bits4 ]
   t: Bits2
+@bitstruct
+class Grid:
+  g: [ [ Bits4, Bits4 ], [ Bits4, Bits4 ] ]
+  t: Bits2
 class Inc( Component ):
   def construct( s, nbits ):
     s.in_ = InPort( nbits ); s.out = OutPort( nbits )
@@ -32,7 +36,7 @@ class RegC( Component ):
 '''
 # leaf units of the struct types: (path, width)
 STRUCT_UNITS = {'Pt': [('a', 8), ('b', 4)], 'Outer': [('p.a', 8), ('p.b', 4), ('c', 4)]}
-STRUCT_WIDTH = {'Pt': 12, 'Outer': 16}
+STRUCT_WIDTH = {'Pt': 12, 'Outer': 16, 'Vec': 14, 'Grid': 18}
 
 class Gen:
   """Generates an acyclic (at bit level AND at block level) RTL design as Python source."""
@@ -150,6 +154,15 @@ class Gen:
         bn = f'b{bi}'; bi += 1
         body = []
         cond = None
+        # a block whose body is only a for loop (bit-by-bit copy/xor): schedulers classify such blocks specially
+        if len(g) == 1 and g[0][2] is None and g[0][0] == f's.{n}' and 2 <= g[0][1] <= 16 and rng.random() < 0.2:
+          W_ = g[0][1]
+          srcs = [a for a in s.avail if a[1] == W_ and a[2] is True]
+          if srcs:
+            a1, a2 = rng.choice(srcs)[0], rng.choice(srcs)[0]
+            s.lines += ['@update', f'def {bn}():', f'  for i in range({W_}):', f'    s.{n}[i] @= {a1}[i] ^ {a2}[{W_-1}-i]']
+            s.blocks.append(bn); s.features.add('loop-only-block')
+            continue
         if rng.random() < 0.25:
           c = rng.choice([a for a in s.avail if not isinstance(a[2], str)])
           cond = f'{c[0]}[0]' if re.fullmatch(r's(\.[A-Za-z_0-9]+(\[\d+\])?)+', c[0]) and c[1] >= 1 else None
@@ -213,11 +226,22 @@ class Gen:
       k, lw = listreg
       s.lines += ['@update_ff', f'def f{fi}():', f'  s.rl[0] <<= {s.src_expr(lw)}', f'  for i in range({k-1}):', f'    s.rl[i+1] <<= s.rl[i]']; fi += 1
     if fi: s.features.add('ff')
+    s.wrap = rng.random() < 0.3
+    if s.wrap: s.features.add('wrapped-one-level-down')
     return s
 
   def source(s):
     body = '\n'.join('    ' + l for l in s.lines)
-    return STRUCT_SRC + f'\nclass {s.name}( Component ):\n  def construct( s ):\n{body}\n'
+    if not getattr(s, 'wrap', False):
+      return STRUCT_SRC + f'\nclass {s.name}( Component ):\n  def construct( s ):\n{body}\n'
+    # the generated component sits one level below the top: exercises per-component grouping code paths
+    inner = f'\nclass {s.name}_inner( Component ):\n  def construct( s ):\n{body}\n'
+    w = ['s.d = %s_inner()' % s.name]
+    for n, typ in s.inputs:
+      t = typ[1] if typ[0] == 'struct' else str(typ[1])
+      w += [f's.{n} = InPort( {t} )', f'connect( s.{n}, s.d.{n} )']
+    wb = '\n'.join('    ' + l for l in w)
+    return STRUCT_SRC + inner + f'\nclass {s.name}( Component ):\n  def construct( s ):\n{wb}\n'
 
 _modcount = [0]
 def load_source(ctx, src, name):
